@@ -32,7 +32,7 @@ RULE = ("pairs of scenarios (same scenario twice; equal layout / different conte
         "all order-preserving interleavings of two 8-operation programs within the switch bound; "
         "non-trivial = interleaving with >= 1 switch between the two environments")
 
-PROGRAM = ["construct", "reset", "step0", "step1", "step2", "read", "reset", "step0", "read"]
+PROGRAM = ["construct", "reset", "step0", "step1", "peek", "step2", "read", "reset", "step0", "read"]
 
 
 # ------------------------------------------------------------------------------------------- env descriptors
@@ -56,7 +56,13 @@ def make_env(desc):
         sp = spec_from_json(desc["spec"])
         if desc.get("as_name"):
             sp["name"] = desc["as_name"]
-        return NASimEnv(to_scenario(sp), flat_actions=fa)
+        sc = to_scenario(sp)
+        if desc.get("share_hosts"):
+            # two scenario dicts may legitimately be built around the SAME Host objects (hosts are configuration)
+            import nasim.scenarios.utils as u
+            pool = _SHARED_HOSTS.setdefault(desc["share_hosts"], sc.scenario_dict[u.HOSTS])
+            sc.scenario_dict[u.HOSTS] = pool
+        return NASimEnv(sc, flat_actions=fa)
     if kind == "benchmark":
         if desc.get("np_seed_before") is not None:
             np.random.seed(desc["np_seed_before"])
@@ -64,6 +70,9 @@ def make_env(desc):
     if kind == "generate":
         return nasim.generate(**desc["params"])
     raise ValueError(kind)
+
+
+_SHARED_HOSTS = {}
 
 
 def layout_tuple(env):
@@ -109,6 +118,19 @@ class Slot:
             elif op == "reset":
                 o, info = self.env.reset()
                 out = ["reset", _canon(np.asarray(o)), _canon(self.env.current_state.tensor), int(self.env.steps)]
+            elif op == "peek":
+                # use the OTHER environment's current state as the argument of generative steps (an environment
+                # used as a simulator for another one); only side effects matter, nothing is recorded
+                other = getattr(self, "other", None)
+                if other is not None and other.env is not None and self.desc.get("peek") and self.env.flat_actions:
+                    for a in range(min(int(self.env.action_space.n), 60)):     # every action of the space
+                        act = self.env.action_space.get_action(a)
+                        sm.arm(draw_values(float(act.prob))["below"])
+                        try:
+                            self.env.generative_step(other.env.current_state, a)
+                        except Exception:
+                            pass
+                out = ["peek"]
             elif op.startswith("step"):
                 k = int(op[4:])
                 a = self.actions[k]
@@ -133,6 +155,7 @@ class Slot:
 def run_schedule(descA, descB, actsA, actsB, sides, schedule):
     sm = seam()
     A, B = Slot(descA, actsA, sides), Slot(descB, actsB, sides)
+    A.other, B.other = B, A
     for who in schedule:
         (A if who == "A" else B).do(sm)
     return A.trace, B.trace
@@ -187,10 +210,17 @@ def pairs(tier):
     s3["firewall"][(0, 2)] = list(s3["services"]); s3["firewall"][(2, 0)] = []
     star = dict(base); star.update(topo="star", sensitive="two_subnets")
     s4 = build(star, name="iso-a")
+    s3h = copy.deepcopy(s4); s3h["name"] = "iso-a2"          # same hosts as s4, subnets 2 and 3 public as well
+    for k in (2, 3):
+        s3h["topology"][0][k] = s3h["topology"][k][0] = 1
+        s3h["firewall"][(0, k)] = list(s3h["services"]); s3h["firewall"][(k, 0)] = []
     rev = copy.deepcopy(s1); rev["name"] = "iso-rev"          # same sizes, service list order reversed (layout differs)
     rev["services"] = list(reversed(rev["services"]))
     out = [
-        ("tiny_twice", {"kind": "shipped", "name": "tiny"}, {"kind": "shipped", "name": "tiny"}),
+        ("tiny_twice", {"kind": "shipped", "name": "tiny", "peek": True}, {"kind": "shipped", "name": "tiny", "peek": True}),
+        ("same_spec_twice_as_simulator", {**_yaml_desc(s1), "peek": True}, {"kind": "dict", "spec": spec_to_json(s1), "peek": True}),
+        ("dict_scenarios_sharing_host_objects", {"kind": "dict", "spec": spec_to_json(s4), "share_hosts": "pool1"},
+         {"kind": "dict", "spec": spec_to_json(s3h), "share_hosts": "pool1"}),
         ("yaml_vs_yaml_same_layout_other_rules", _yaml_desc(s1), _yaml_desc(s2)),
         ("yaml_vs_dict_same_spec", _yaml_desc(s1), {"kind": "dict", "spec": spec_to_json(s1)}),
         ("dict_vs_yaml_other_rules", {"kind": "dict", "spec": spec_to_json(s2)}, _yaml_desc(s1)),
